@@ -9,8 +9,8 @@ CONSTANTS
   ItemMode = "none"
   MaxItems = 0
   Addrs = {"4096"}
-  Grows = {1, 2, 3}
-  NopKinds = {"1", "4", "u"}
+  Grows = {1, 2}
+  NopKinds = {"1", "4"}
   VariantSet = "align"
   Rotate = 2
   Emit = TRUE
